@@ -5,7 +5,7 @@
    declarative grammar of Spec/Lang.v; the viable-prefix recogniser of Spec/Grammar.v is still evaluated on the
    implementation's verdicts on every run. *)
 From Coq Require Import List NArith Bool.
-Require P.Proofs.LangFinal.
+Require P.Proofs.LangFinal P.Proofs.GrammarOracleFinal P.Spec.Grammar.
 Require Import P.Spec.Lang P.Model.Base P.Model.Reader.
 Strategy opaque [P.Generated.Trees.tree_symbol P.Generated.Trees.tree_organic P.Generated.Trees.tree_configuration
   P.Generated.Trees.tree_charge P.Generated.Trees.tree_bond P.Generated.Trees.tree_rnum P.Generated.Trees.tree_hcount
@@ -39,7 +39,12 @@ Proof. exact P.Proofs.LangFinal.C05_character. Qed.
 Theorem C05_end_of_line_is_viable_incomplete_input : forall s h, rd s = (VEol, h) -> viable s /\ ~ Lang s.
 Proof. exact P.Proofs.LangFinal.C05_end_of_line. Qed.
 
+(* the executable viable-prefix recogniser that the check evaluates on the implementation's cursors decides viability *)
+Theorem C05_executable_recogniser_decides_viability : forall s, P.Spec.Grammar.viable_spec s = true <-> viable s.
+Proof. exact P.Proofs.GrammarOracleFinal.viable_spec_correct. Qed.
+
 Print Assumptions C05_reported_index_is_last_inspected_position.
 Print Assumptions C05_token_error_positions_as_documented.
 Print Assumptions C05_character_is_first_non_viable_prefix.
 Print Assumptions C05_end_of_line_is_viable_incomplete_input.
+Print Assumptions C05_executable_recogniser_decides_viability.
